@@ -90,8 +90,13 @@ class MCMC(Identifiable, Runnable):
                 acceptance_prob = torch.zeros_like(hastings_ratio)
                 accepted = False
             else:
-                with torch.no_grad():
-                    log_joint_proposed = self.joint()
+                try:
+                    with torch.no_grad():
+                        log_joint_proposed = self.joint()
+                except ValueError:
+                    # the proposal left the support of a validated distribution:
+                    # the target density is zero there and the move is rejected
+                    log_joint_proposed = torch.full_like(hastings_ratio, -torch.inf)
                 if torch.isnan(log_joint_proposed) or torch.isinf(log_joint_proposed):
                     log_alpha = torch.tensor(torch.finfo(hastings_ratio.dtype).min)
                     acceptance_prob = torch.zeros_like(hastings_ratio)
